@@ -1,0 +1,17 @@
+//go:build verif
+// +build verif
+
+package push
+
+// VerifYieldHook is used by the verification harness in /verif (build tag "verif") to
+// force schedules: when it is non-nil it is called at the named yield points of this
+// package with the client id the broker is working for. It must be set before the
+// goroutines that use a broker are started. With the tag off (verif_off.go) the yield
+// points compile to nothing.
+var VerifYieldHook func(point string, id string)
+
+func verifYield(point string, id string) {
+	if h := VerifYieldHook; h != nil {
+		h(point, id)
+	}
+}
